@@ -15,6 +15,7 @@
 (* Results: [o |-> "value", v |-> val] | [o |-> "throw", cls |-> name]                *)
 (*          | [o |-> "escape", cls |-> name]  (an exception no script catch receives) *)
 EXTENDS JsConv
+LOCAL JTX == INSTANCE TLCExt         \* JTX!TLCCache(e, key) = e (memoised by TLC)
 LOCAL JSX == INSTANCE SequencesExt    \* JSX!FoldLeft (iterative): long scans must not recurse (Java stack)
 
 JVal(v)      == [o |-> "value", v |-> v]
@@ -81,7 +82,7 @@ JNumFast(neg, intD, fracD, eneg, expD) ==
                     IN IF k = 0 THEN JSigned(neg, WOfNat(m))
                        ELSE IF k <= 6 /\ m % JPow5(k) = 0 THEN JSigned(neg, JWScale(WOfNat(m \div JPow5(k)), 0 - k))
                        ELSE <<>>
-JNumSlow(text) == DToW(StrToD(text))                        \* a JSON number token is a StrDecimalLiteral
+JNumSlow(text) == JTX!TLCCache(DToW(StrToD(text)), text)                        \* a JSON number token is a StrDecimalLiteral
 JNumTokenW(text, neg, intD, fracD, eneg, expD) ==
   LET f == JNumFast(neg, intD, fracD, eneg, expD) IN IF f # <<>> THEN f ELSE JNumSlow(text)
 
@@ -102,7 +103,7 @@ JTextFast(w) ==
                ELSE sg \o DigitsOf(d \div JPow10(k)) \o <<46>> \o JPadLeft(DigitsOf(d % JPow10(k)), k)
 \* ECMAScript Number::toString(x) for finite x
 JNumToString(w) == IF WIsZero(w) THEN <<48>>
-                   ELSE LET f == JTextFast(w) IN IF f # <<>> THEN f ELSE NumToText(DFromW(w))
+                   ELSE LET f == JTextFast(w) IN IF f # <<>> THEN f ELSE JTX!TLCCache(NumToText(DFromW(w)), w)
 \* host repr layout of a finite double (shortest digits, positional for 1e-4 <= |x| < 1e16, else d.ddde+XX)
 JPyLayout(digs, k, n, dotzero) ==
   LET x == n - 1 IN
